@@ -216,6 +216,16 @@ pub fn dispatch(ctx: &mut Ctx, op: &str, call: &Value) -> Option<Value> {
                     }
                 }
             }
+            // "res": not the Box itself but a byte-identical copy at an address that is `res` modulo 16 (a boot
+            // loader or linker places the structure anywhere 8-aligned; malloc only ever shows 0 modulo 16)
+            if let Some(res) = call["res"].as_u64() {
+                let mut buf = vec![0u64; ctx.len / 8 + 4];
+                let p = buf.as_mut_ptr() as usize;
+                let off = (res as usize + 16 - p % 16) % 16;
+                unsafe { std::ptr::copy_nonoverlapping(ctx.base, (p + off) as *mut u8, ctx.len) };
+                ctx.base = (p + off) as *const u8;
+                ctx.copy = Some(buf);
+            }
             ctx.bi = None;
             ctx.hdr = None;
             ctx.its.clear();
@@ -324,8 +334,14 @@ fn b_set(ctx: &mut Ctx, c: &Value) -> Value {
     };
     macro_rules! put {
         ($mk:expr, $m:ident) => {{
+            // a boxed tag handed to a setter: how it was allocated is part of what the constructor did
+            let mut ids = HashMap::new();
+            alloc_track::mark();
             let t = $mk;
-            let d = describe(&*t);
+            let ev = alloc_track::unmark();
+            let mut d = describe(&*t);
+            d.insert("obj".into(), json!(*ids.entry(raw(&*t).as_ptr() as usize).or_insert(1)));
+            d.insert("allocs".into(), events_json(&ev, &mut ids));
             ctx.bld = Some(b.$m(t));
             out::ok(Value::Object(d))
         }};
@@ -383,8 +399,13 @@ fn hb_set(ctx: &mut Ctx, c: &Value) -> Value {
     }
     match out::arg_str(c, "slot") {
         "info_req" => {
+            let mut ids = HashMap::new();
+            alloc_track::mark();
             let t = mk_info_req(c);
-            let d = describe(&*t);
+            let ev = alloc_track::unmark();
+            let mut d = describe(&*t);
+            d.insert("obj".into(), json!(*ids.entry(raw(&*t).as_ptr() as usize).or_insert(1)));
+            d.insert("allocs".into(), events_json(&ev, &mut ids));
             ctx.hbld = Some(b.information_request_tag(t));
             out::ok(Value::Object(d))
         }
